@@ -205,8 +205,10 @@ void target_run(Tape &t)
 
 	// version ranges: both contain `version`, and it is the highest common one
 	// (drawn from the *end* of the tape so that earlier fields keep their place)
+	unsigned cursel = 0;
 	{
-		Tape tail(t.p + (t.n > 3 ? t.n - 3 : 0), t.n > 3 ? 3 : 0);
+		Tape tail(t.p + (t.n > 4 ? t.n - 4 : 0), t.n > 4 ? 4 : 0);
+		cursel = tail.u8();
 		unsigned r = tail.u8(), lo1 = tail.u8(), lo2 = tail.u8();
 		unsigned up = 0x0303 - version;
 		if (r & 1) cp.vmax = version + (up ? (r >> 1) % (up + 1) : 0);
@@ -215,6 +217,26 @@ void target_run(Tape &t)
 		cp.vmin = version - (down ? lo1 % (down + 1) : 0);
 		sp.vmin = version - (down ? lo2 % (down + 1) : 0);
 	}
+	// ECDHE over one chosen curve: the engine of one BearSSL side gets an EC implementation reduced to that curve (the
+	// server otherwise prefers X25519, then P-256, and the larger curves would never carry a key exchange).  The client's
+	// engine implementation also verifies the ServerKeyExchange signature, so with an ECDSA (P-256) server key only the
+	// server side is reduced.  Applied before reset(): the ClientHello is written at reset time.
+	int only_curve = 0;
+	bool curve_on_server = false;
+	if ((si->kx == wt::KX_ECDHE_RSA || si->kx == wt::KX_ECDHE_ECDSA) && cursel % 8 >= 4) {
+		static const int CV[] = { BR_EC_secp256r1, BR_EC_secp384r1, BR_EC_secp521r1, BR_EC_curve25519 };
+		only_curve = CV[cursel % 4];
+		curve_on_server = ((cursel >> 3) & 1) != 0 || si->kx == wt::KX_ECDHE_ECDSA;
+		if (curve_on_server && foreign_server) { if (si->kx == wt::KX_ECDHE_RSA) curve_on_server = false; else only_curve = 0; }
+		else if (!curve_on_server && foreign_client) curve_on_server = true;
+	}
+	auto reduce_ec = [&](BearEndpoint *who, bool esp) {
+		static br_ec_impl reduced[2][32];
+		br_ec_impl &ri = reduced[esp][only_curve];
+		ri = esp ? br_ec_all_m15 : br_ec_all_m31;
+		ri.supported_curves = 1u << only_curve;
+		br_ssl_engine_set_ec(who->eng, &ri);
+	};
 	std::unique_ptr<Endpoint> cl, sv;
 	BearClient *bc = nullptr;
 	BearServer *bs = nullptr;
@@ -230,6 +252,7 @@ void target_run(Tape &t)
 	} else {
 		bc = new BearClient(cp);
 		cl.reset(bc);
+		if (only_curve && !curve_on_server) reduce_ec(bc, cs.esp);
 		VF_CHECK(bc->reset(), "client reset failed: error %d", bc->error());
 		VF_CHECK(bc->eng->max_frag_len == cmfl, "client fragment length %u, reference says %zu for in=%zu out=%zu",
 			(unsigned)bc->eng->max_frag_len, cmfl, ci, co);
@@ -239,6 +262,7 @@ void target_run(Tape &t)
 	else {
 		bs = new BearServer(sp);
 		sv.reset(bs);
+		if (only_curve && curve_on_server) reduce_ec(bs, ss.esp);
 		VF_CHECK(bs->reset(), "server reset failed: error %d", bs->error());
 	}
 
@@ -292,6 +316,7 @@ void target_run(Tape &t)
 		pol_name(S.wire_out_pol[0]), pol_name(S.wire_out_pol[1]), pol_name(S.wire_in_pol[0]), pol_name(S.wire_in_pol[1]),
 		pol_name(S.app_pol), S.jitter ? " jitter" : "", script_desc.c_str(), closer ? "server" : "client");
 
+	if (only_curve) desc += fmt(" | ECDHE over curve %d only", only_curve);
 	// ---------------------------------------------------------------- run
 	bool params_checked = false;
 	S.on_established = [&]() {
@@ -333,6 +358,9 @@ void target_run(Tape &t)
 				VF_CHECK(SSL_export_keying_material(oe->ssl, ek[side], 40, "EXPERIMENTAL verif", 18, label_ctx, ectx_len, ctx_form != 2) == 1, "harness: openssl export");
 			}
 		}
+		if (only_curve) for (int side = 0; side < 2; side++) if (S.ep[side]->is_bear())
+			VF_CHECK(br_ssl_engine_get_ecdhe_curve(static_cast<BearEndpoint *>(S.ep[side])->eng) == only_curve, "%s: %s reports ECDHE curve %d, only curve %d was common", desc.c_str(), side ? "server" : "client",
+				br_ssl_engine_get_ecdhe_curve(static_cast<BearEndpoint *>(S.ep[side])->eng), only_curve);
 		VF_CHECK(ver[0] == version && ver[1] == version, "%s: versions reported %04x / %04x, configured %04x", desc.c_str(), ver[0], ver[1], version);
 		VF_CHECK(suite[0] == si->id && suite[1] == si->id, "%s: suites reported %04x / %04x, configured %04x", desc.c_str(), suite[0], suite[1], si->id);
 		VF_CHECK(sid[0] == sid[1], "%s: session IDs differ: %s vs %s", desc.c_str(), hex(sid[0].data(), sid[0].size()).c_str(), hex(sid[1].data(), sid[1].size()).c_str());
@@ -407,6 +435,7 @@ void target_run(Tape &t)
 	stats.cls(fmt("client-mfl:%zu", cmfl));
 	stats.cls(fmt("wirepol:%s", pol_name(S.wire_in_pol[1])));
 	if (cs.esp || ss.esp) stats.cls("impl:esp");
+	if (only_curve) stats.cls(fmt("ecdhe-over-curve:%d", only_curve));
 	if (cp.vmax != version || sp.vmax != version) stats.cls("version:negotiated-below-one-side-max");
 	stats.eval(nontriv ? fmt("%d/%04x/%04x/%d/%d%d%d/%d%d%d/%zu/%zu", pairing, si->id, version, (int)key, cs.esp, cs.layout, cs.cls, ss.esp, ss.layout, ss.cls,
 		S.sent[0] % 7, S.sent[1] % 7) : std::string());
